@@ -105,50 +105,28 @@ class Planner:
     def __init__(self, drv, rng, covered):
         self.drv, self.rng, self.covered = drv, rng, covered
 
-    def walk(self, name, cfg, bulk_tokens, policy, max_steps, per_label=1, want=None):
-        """one case: cfg, bulk_load, then the walk with the probes that take new branches"""
+    def walk(self, name, cfg, bulk_tokens, policy, max_steps, per_label=1, probe_every=1):
+        """one case: cfg, bulk_load, then a walk of erases chosen by `policy`; at every `probe_every`-th state all
+        possible single erases are tried on a copy and those taking rarely taken branches are put into the case"""
         rng = self.rng
         head = [f"case {name}", cfg, "bulk 0 " + " ".join(bulk_tokens)]
         state = list(head)          # what the model replays to reach the current state (register 0 only)
         case = list(head)           # what is emitted
-        steps = 0
-        while steps < max_steps:
-            out = run_driver(self.drv, "labels", state + ["size 0"])
-            root = parse_tree(out[-1])
-            ents = entries(root)
-            if not ents:
+        for step in range(max_steps):
+            root = parse_tree(run_driver(self.drv, "labels", state + ["size 0"])[-1])
+            if root is None:
                 break
-            # every possible single erase on a copy
-            cands = []
-            seen_keys = set()
-            for rank, e in enumerate(ents):
-                k = key_of(e)
-                cands.append(f"eri 1 {rank}")
-                if k not in seen_keys:
-                    seen_keys.add(k)
-                    cands.append(f"er1 1 {k}")
-            probe = []
-            for c in cands:
-                probe += ["copy 1 0", c]
-            out = run_driver(self.drv, "labels", state + probe)
-            labs = [out[len(state) + 2 * i + 1].split() for i in range(len(cands))]
-            # probes that take a branch not yet taken (greedy)
-            order = list(range(len(cands)))
-            rng.shuffle(order)
-            for i in order:
-                new = [l for l in labs[i] if self.covered.get(l, 0) < per_label and (want is None or l in want)]
-                if new:
-                    case += ["copy 1 0", cands[i]]
-                    for l in labs[i]:
-                        self.covered[l] = self.covered.get(l, 0) + 1
-            # advance
-            mv = policy(rng, ents, cands, labs)
-            if mv is None:
-                break
+            if step % probe_every == 0:
+                lines, cands, labs = probe_all(self.drv, state, root, self.covered, per_label, rng)
+                case += lines
+                mv = policy(rng, cands, labs)
+            else:
+                ents = entries(root)
+                r = rng.randrange(len(ents))
+                mv = f"eri 1 {r}" if rng.random() < 0.5 else f"er1 1 {key_of(ents[r])}"
             mv0 = mv.replace(" 1 ", " 0 ", 1)
             state.append(mv0)
             case.append(mv0)
-            steps += 1
         return case
 
 
@@ -156,11 +134,11 @@ def quiet(labels):
     return all(l.endswith(".nofix") or ".lastkey." in l for l in labels)
 
 
-def pol_random(rng, ents, cands, labs):
+def pol_random(rng, cands, labs):
     return rng.choice(cands)
 
 
-def pol_thin(rng, ents, cands, labs):
+def pol_thin(rng, cands, labs):
     """reduce fills without rebalancing while possible, then anything"""
     q = [c for c, l in zip(cands, labs) if quiet(l)]
     if q and rng.random() < 0.9:
@@ -168,15 +146,15 @@ def pol_thin(rng, ents, cands, labs):
     return rng.choice(cands)
 
 
-def pol_front(rng, ents, cands, labs):
+def pol_front(rng, cands, labs):
     return cands[0] if rng.random() < 0.8 else rng.choice(cands)
 
 
-def pol_back(rng, ents, cands, labs):
+def pol_back(rng, cands, labs):
     return cands[-1] if rng.random() < 0.8 else rng.choice(cands)
 
 
-def pol_loud(rng, ents, cands, labs):
+def pol_loud(rng, cands, labs):
     """prefer erases that rebalance"""
     q = [c for c, l in zip(cands, labs) if not quiet(l)]
     if q and rng.random() < 0.7:
@@ -425,8 +403,10 @@ def plan(drv, seed, tier, log=None):
     configs = [(4, 4), (4, 5), (5, 4)] if tier == "quick" else [(4, 4), (4, 5), (5, 4), (5, 5), (6, 6), (4, 7), (7, 4)]
     modes = (0,) if tier == "quick" else (0, 1)
     for ci, (leaf, inner) in enumerate(configs):
-        cov = covered if tier != "quick" or ci == 0 else {}     # every minimal capacity covers the table itself
+        cov = {} if (leaf, inner) in ((4, 4), (4, 5), (5, 4)) else covered   # every minimal capacity covers the table itself
         for mode in modes:
+            if mode and cov is not covered:
+                cov = {}                                    # ... and so does every key order
             for level in (0, 1, 2):
                 if (leaf, inner) not in ((4, 4), (4, 5), (5, 4)) and level == 2:
                     continue
@@ -441,20 +421,21 @@ def plan(drv, seed, tier, log=None):
                     lines, _, _ = probe_all(drv, sh.ops, sh.root, cov, per, rng)
                     if lines:
                         cases.append(sh.ops + lines)
-        if cov is not covered:
-            for l, c in cov.items():
-                covered[l] = covered.get(l, 0) + c
+            if cov is not covered:
+                for l, c in cov.items():
+                    covered[l] = covered.get(l, 0) + c
     # small trees drained to nothing, duplicate runs
     for j, (kind, dup_run, height) in enumerate((("set", 1, 3), ("mmap", 1, 3), ("mset", 7, 4), ("mmap", 5, 3))):
         leaf, inner = configs[j % len(configs)]
         cases.append(drain_case(drv, rng, covered, f"drain{j}", kind, leaf, inner, j % 2, 0, height, dup_run, per))
     if tier != "quick":
         P = Planner(drv, rng, covered)
-        for j, (leaf, inner) in enumerate(configs):
+        for j, (leaf, inner) in enumerate(configs[:3]):
             for pol in ("thin", "loud", "random"):
                 nk = 108 if leaf == 4 else 140
                 toks = [str(i) for i in range(1, nk + 1)]
-                cases.append(P.walk(f"walk{j}{pol}", f"cfg set {leaf} {inner} {j % 2} 0", toks, POLICIES[pol], 3 * nk, 6))
+                cases.append(P.walk(f"walk{j}{pol}", f"cfg {KINDS[j % 4]} {leaf} {inner} {j % 2} 0",
+                                    [t if j % 4 < 2 else t + ":1" for t in toks], POLICIES[pol], nk, 6, 4))
     return cases, covered
 
 
